@@ -5,8 +5,8 @@ open IQE
 
 theorem hexValU_hexUp : ∀ n : Fin 16, hexValU (hexUp n.val) = some n.val := by decide
 set_option maxRecDepth 100000 in
-theorem safe_facts : ∀ n : Fin 256, urlSafe n.val = true →
-    Char.ofNat n.val ≠ '%' ∧ Char.ofNat n.val ≠ '+' ∧ Utf8.encodeChar (Char.ofNat n.val) = [UInt8.ofNat n.val] := by decide +kernel
+theorem alnum_facts : ∀ n : Fin 256, isAlnum n.val = true →
+    Char.ofNat n.val ≠ '%' ∧ Utf8.encodeChar (Char.ofNat n.val) = [UInt8.ofNat n.val] := by decide +kernel
 
 theorem urlDecodeBytes_encodeByte (b : UInt8) (rest : List Char) :
     urlDecodeBytes (urlEncodeByte b ++ rest) = (urlDecodeBytes rest).map (b :: ·) := by
@@ -14,7 +14,7 @@ theorem urlDecodeBytes_encodeByte (b : UInt8) (rest : List Char) :
   unfold urlEncodeByte
   split
   · rename_i hs
-    obtain ⟨h1, h2, h3⟩ := safe_facts ⟨b.toNat, hb⟩ hs
+    obtain ⟨h1, h3⟩ := alnum_facts ⟨b.toNat, hb⟩ hs
     simp only [List.singleton_append] at *
     rw [urlDecodeBytes.eq_def]
     split
@@ -23,19 +23,13 @@ theorem urlDecodeBytes_encodeByte (b : UInt8) (rest : List Char) :
     · rename_i heq; simp at heq; exact absurd heq.1 h1
     · rename_i c r _ _ heq
       simp at heq; obtain ⟨hc, hr⟩ := heq; subst hc hr
-      simp only [h2, if_false, h3]
+      simp only [h3]
       cases urlDecodeBytes rest <;> simp
-  · split
-    · rename_i _ h32
-      have : b = 32 := by apply UInt8.toNat_inj.mp; simpa using h32
-      subst this
-      simp [urlDecodeBytes]
-      cases urlDecodeBytes rest <;> simp
-    · have h1 := hexValU_hexUp ⟨b.toNat / 16, by omega⟩
-      have h2 := hexValU_hexUp ⟨b.toNat % 16, by omega⟩
-      simp only [List.cons_append, List.nil_append, urlDecodeBytes, h1, h2]
-      have : b.toNat / 16 * 16 + b.toNat % 16 = b.toNat := by omega
-      cases urlDecodeBytes rest <;> simp [this]
+  · have h1 := hexValU_hexUp ⟨b.toNat / 16, by omega⟩
+    have h2 := hexValU_hexUp ⟨b.toNat % 16, by omega⟩
+    simp only [List.cons_append, List.nil_append, urlDecodeBytes, h1, h2]
+    have : b.toNat / 16 * 16 + b.toNat % 16 = b.toNat := by omega
+    cases urlDecodeBytes rest <;> simp [this]
 
 theorem urlDecodeBytes_flatMap (bs : List UInt8) : urlDecodeBytes (bs.flatMap urlEncodeByte) = some bs := by
   induction bs with
